@@ -98,6 +98,10 @@ class Gen:
                 b = self.rng.choice(prev)
                 r = self.rng.random()
                 n = b[:max(1, len(b) - 1)] if r < 0.4 else (b + self.textbyte(self.comment) if r < 0.8 else b)
+            elif self.rng.random() < 0.12:
+                # pairs of different names with the same djb2 hash (the library has `hashstring`): "…ab" and "…bA"
+                stem = self.rng.choice([b"unit-", b"", b"x"])
+                n = stem + (b"bA" if any(p == stem + b"ab" for p in prev) else b"ab")
             if n != NONE and n[:1] != b"[" and n.strip(b" \t\x0b\x0c\r"):
                 self._sections = prev + [n]
                 return n
